@@ -101,13 +101,13 @@ func VerifH_C03_field() {
 }
 
 // The same from a decoder state with 1 or 2 dynamic entries, on every input
-// of up to 3 (quick) / 5 (thorough) bytes: index arithmetic, insertion,
+// of up to 3 (quick) / 4 (thorough) bytes: index arithmetic, insertion,
 // eviction, oversized entries, size updates that evict.
 //
 //verif:harness prop=C03,C01,C02 unwind=24 timeout=600 timeoutT=5000
 func VerifH_C03_table() {
 	hp, t := vC03State(vRange(1, 2))
-	vC03Field(hp, t, vPick(3, 5))
+	vC03Field(hp, t, vPick(3, 4))
 }
 
 // A block that consists of exactly one dynamic table size update whose
